@@ -228,6 +228,27 @@ def run(ctx):
     table(ctx, 'PETE-SCENARIO', 'day-view==instant-view', [n for n in days if n not in jie_days], agree, lambda n: True,
           'day-level and instant-level views agree on days containing no Jie', lambda n: '%d-%02d-%02d' % CAL.from_jdn(n))
 
+    # 6. the lunar-date twins of the pillar getters (kept for compatibility) must answer what the sexagenary views answer for the same day / instant
+    def twins(x):
+        n, sec = x
+        name, tm, months = scen_t[1]
+        cm = CalModel(I, tm, months)
+        d = I.call('SixtyCycleDay::from_solar_day', [cm.solar_day_n(n)])
+        ld = t.m(cm.solar_day_n(n), 'get_lunar_day')
+        h = I.call('SixtyCycleHour::from_solar_time', [cm.solar_time_n(n, sec)])
+        lh = t.m(cm.solar_time_n(n, sec), 'get_lunar_hour')
+        bad = []
+        if (t.name(t.m(ld, 'get_year_sixty_cycle')), t.name(t.m(ld, 'get_month_sixty_cycle'))) != (t.name(t.m(d, 'get_year')), t.name(t.m(d, 'get_month'))):
+            bad.append('LunarDay year/month pillar getters differ from the sexagenary-day view')
+        if (t.name(t.m(lh, 'get_year_sixty_cycle')), t.name(t.m(lh, 'get_month_sixty_cycle')), t.name(t.m(lh, 'get_day_sixty_cycle'))) != (t.name(t.m(h, 'get_year')), t.name(t.m(h, 'get_month')), t.name(t.m(h, 'get_day'))):
+            bad.append('LunarHour year/month/day pillar getters differ from the sexagenary-hour view')
+        return tuple(bad)
+    _cov = lambda n: any(r['first'] <= n and n + 1 < r['first'] + r['count'] for r in scen_t[1][2])
+    tw_days = [n for n in sorted(jie_days) if _cov(n) and n in days][:4] + [n for n in days if n not in jie_days and _cov(n)][::45]
+    table(ctx, 'PETE-SCENARIO', 'lunar-twins==sexagenary-views', [(n, sec) for n in tw_days for sec in (0, 43200, 84600)], twins, lambda x: (),
+          'LunarDay / LunarHour pillar getters answer exactly what the sexagenary-day / -hour views answer (Jie days, ordinary days, 23:30)', lambda x: '%d-%02d-%02d' % CAL.from_jdn(x[0]) + ' +%ds' % x[1],
+          fn_site(p, 'LunarHour::get_year_sixty_cycle'))
+
     ctx.assumptions.append('numeric layer replaced by oracles: civil date <-> day number (C01), term days/instants (C05/C06), lunar month table (C02/C03)')
     ctx.not_decided.append('on which civil day / instant each Jie and Lichun actually falls (numeric)')
     return ('Five-Tigers tables over all 60 year pillars; the real year/month switching code of both views evaluated by PETE on scenario calendars '
